@@ -109,6 +109,20 @@ class Check(object):
     def extra_evidence(self):
         return {}
 
+    COST_LIMIT = 60000000
+
+    def cheap(self, c):
+        """the naive specification evaluator of the model is exponential in the nesting depth of unbounded binary
+        operators: cases whose estimated cost is beyond the limit are not generated (counted in the evidence)"""
+        try:
+            n = max(int(c.get('n', 0) or 0), int(c.get('n2', 0) or 0), 1)
+            fs = [c[k] for k in ('f', 'g', 'lhs', 'rhs') if k in c and isinstance(c[k], tuple)] + [x for x in c.get('fs', []) if isinstance(x, tuple)]
+            if 'sigs' in c:
+                n = max([len(s) for s in c['sigs']] + [1]) * 8
+            return all(fml.cost(f, n) <= self.COST_LIMIT for f in fs)
+        except Exception:
+            return True
+
     def main(self, tier, seed, replay=None):
         rep = Report(self.PID, tier, seed)
         ok, log, _ = ensure_build()
@@ -124,6 +138,9 @@ class Check(object):
         else:
             cs = self.corpus() + self.gen_cases(rng, tier)
         cs = [self.normalize(c) for c in cs]
+        ncs = len(cs)
+        cs = [c for c in cs if self.cheap(c)]
+        self.skipped_costly = ncs - len(cs)
         verdicts = self.evaluate(model, cs) if (ok or replay) and os.path.exists(os.path.join(VERIF, 'build', 'model_driver')) else []
         stats, hist, distinct, failing = {}, {}, set(), []
         for c, (v, d) in zip(cs, verdicts):
@@ -193,7 +210,7 @@ class Check(object):
             'samples': [self.describe(c) for c in cs[-3:]],
             'traces_validated_against_impl': stats.get('ok', 0),
             'dropped_as_indeterminate': stats.get('dropped', 0),
-            'feature_histogram': hist, 'verdicts': stats,
+            'feature_histogram': hist, 'verdicts': stats, 'skipped_as_too_costly_for_the_naive_evaluator': getattr(self, 'skipped_costly', 0),
         }
         cov.update(self.extra_evidence())
         return rep.finish(obl, cov)
